@@ -304,7 +304,8 @@ type Case struct {
 
 var checker = &vk.Checker[Case]{
 	ID: "C19",
-	Rule: fmt.Sprintf("%d call kinds covering the quantifier's list (bitmap Rank64/Rank128/Select32/Select32R64/index builders/NextOne/PrevOne/Slice/ToArray/Getw/Get*/SafeGet*/FromStr32/Join/Of/OfMany/Fmt, bmtree PathToIndex/Loose/IndexToPath/AllPaths/Decode/PathOf/PathsOf/path accessors, bitstr New/Len/Cmp/CmpUpto/StrCmpUpto, bitword FromStr(s)/ToStr(s)/Get/FirstDiff, sigbits FirstDiffBits/New+CountPrefixes/ShardByPrefix) with in-domain generated arguments. ", len(funcs)) +
+	Rule: fmt.Sprintf("%d call kinds covering the quantifier's list (bitmap Rank64/Rank128/Select32/Select32R64/index builders/NextOne/PrevOne/Slice/ToArray/Getw/Get*/SafeGet*/FromStr32/Join/Of/OfMany/Fmt, bmtree PathToIndex/Loose/IndexToPath/AllPaths/Decode/PathOf/PathsOf/path accessors, bitstr New/Len/Cmp/CmpUpto/StrCmpUpto, bitword FromStr(s)/ToStr(s)/Get/FirstDiff, sigbits FirstDiffBits/New+CountPrefixes/ShardByPrefix) with in-domain generated arguments (the domains of C01..C18: e.g. NextOne and PrevOne with i inside the bitmap; sigbits.New, CountPrefixes and ShardByPrefix on strictly ascending key lists only - lists with repeated or unordered keys go to FirstDiffBits, which is stated for every non-empty list). ", len(funcs)) +
+		"One kind asks a SigBits object 2..6 related (keyStart, keyEnd, maxitem) tuples (the same range with another maxitem, the same start with another end, the same end with another start, the same tuple again) four times in different orders (as drawn, backwards, a keyed permutation, as drawn; alternately of two objects built from the same keys; rotated differently for the relocated objects): every answer must equal the first answer to the same tuple, and the first answers must read the same after all later queries - in call cases, in rounds (the goroutines share the object) and at cold start. " +
 		"Sizes: the small region of the shared generators (bitmaps <= 10 words, <= 10 keys, strings <= 48 bytes) for about 70% of the calls, otherwise log-uniform (octave uniformly, then 2^k-1, 2^k, 2^k+1 or a uniform position in the octave) up to 8192 words for calls with scalar results, 1024 words for calls whose result grows with the input, 2048 keys, 4096-byte strings, tree heights up to 13 for Decode (seldom 16, and in the grid), 1024 first-level paths for AllPaths (thorough: 8 to 16 times that); large bitmaps and key lists are described by (size, key, style) and expanded deterministically; TestGrid sweeps every kind over 2^k-1, 2^k, 2^k+1 and one keyed size per octave, and one large input per kind is evaluated under every GOMAXPROCS setting of the process that varies it. Positions and ranges aim at both ends of the input and at word boundaries (empty range, whole input, one bit, first bit only ...). " +
 		"'call' cases: every slice argument (also the prebuilt indexes, the [][]byte of ToStrs, the [][]int32 and sizes of OfMany, the integer slices of Fmt) is a window into a larger array with canaries before it and in its spare capacity; an EMPTY slice reaches the library as nil for about half of the cases (same shape in every evaluation of one case); every string is a substring of a fresh heap string 0..7 bytes into it with foreign non-zero bytes around it, which are compared too; []string lists have canary neighbours; all are compared with snapshots after the call and once more at the end of the evaluation, after the later calls (1: arguments unchanged, also after return); package tables are compared with independently computed values, with the start-up snapshot of the unexported tables (verif hook; then the slower behavioural probes through Select32 / IndexToPath run on every 8th check) and the state behind the bitword.BitWord entries behaviourally through every method of every width on fixed inputs (2: tables unchanged); the call is repeated after a batch of unrelated calls (the first of them of the same kind), after the stack was overwritten, under another GOMAXPROCS setting (in the process that varies GOMAXPROCS, and for the tall Decode trees of the grid) and with relocated arguments (other offsets, other string alignment), and the slices it returned the first time are rendered again afterwards and must read the same (3: result depends only on arguments and belongs to the caller). " +
 		"'round' cases: a shared workload (mixed kinds; calls of one kind; or different calls - long NextOne/PrevOne scans next to rank/select/get/slice calls - on ONE shared bitmap) is evaluated sequentially - before the goroutines start or, every other round, after they have finished - and by G in {2,8,32} goroutines released together, each running keyed permutations of the workload; every result must equal the sequential one, guards and tables are re-checked; the same rounds run in a binary built with the race detector (halt_on_error; there a grid runs rounds of every kind and shared-bitmap rounds), where any unsynchronised conflicting access ends the process (4). " +
@@ -350,6 +351,9 @@ func classify(c Case) (bool, []string) {
 		labels = append(labels, "fn:"+c.Calls[0].Fn)
 		if c.Procs > 0 {
 			labels = append(labels, "call:also-under-another-gomaxprocs")
+		}
+		if c.Calls[0].Fn == multiQueryKind {
+			labels = append(labels, multiQueryClasses(c.Calls[0].A)...)
 		}
 		return nonEmptyArgs(c.Calls[0].A), append(labels, argClasses(c.Calls[0].A)...)
 	}
@@ -401,6 +405,9 @@ func argClasses(a Args) []string {
 }
 
 func setupCall(cl Call, g *guard) (func() []any, *vk.Failure) {
+	if retiredKinds[cl.Fn] {
+		return func() []any { return nil }, nil // (an older replay file: see retiredKinds)
+	}
 	i, ok := funcIndex[cl.Fn]
 	if !ok {
 		vk.Infra("case names an unknown call kind: " + cl.Fn)
@@ -425,6 +432,13 @@ func runCallRaw(name string, fn func() []any) ([]any, string, *vk.Failure) {
 	var res []any
 	if f := vk.Try(name, func() { res = fn() }); f != nil {
 		return nil, "", f
+	}
+	// a call closure that makes several library calls and compares them itself (multiQueryKind) reports a
+	// disagreement as its only result
+	if len(res) == 1 {
+		if f, ok := res[0].(*vk.Failure); ok {
+			return nil, "", f
+		}
 	}
 	return res, render(res), nil
 }
@@ -883,7 +897,7 @@ func sweepMax(name string) int {
 		return 0 // no size-like argument
 	case "bitmap.FromStr32", "bitstr.New+Len", "bitstr.Cmp", "bitstr.CmpUpto+StrCmpUpto", "bitword.FromStr+Get+ToStr", "bitword.ToStr", "bitword.FirstDiff":
 		return bigStr()
-	case "bmtree.PathOf+PathsOf", "sigbits.FirstDiffBits", "sigbits.New(list with repeated keys)", "sigbits.New+CountPrefixes", "sigbits.ShardByPrefix":
+	case "bmtree.PathOf+PathsOf", "sigbits.FirstDiffBits", multiQueryKind, "sigbits.New+CountPrefixes", "sigbits.ShardByPrefix":
 		return bigKeys()
 	}
 	return bigSlice()
